@@ -126,7 +126,7 @@ impl Iterator for Args {
 
 impl ExactSizeIterator for Args {
     fn len(&self) -> usize {
-        self.0.num_args
+        self.0.len()
     }
 }
 
@@ -161,6 +161,7 @@ impl Iterator for ArgsOs {
 
 impl ExactSizeIterator for ArgsOs {
     fn len(&self) -> usize {
-        self.num_args
+        // The remaining arguments, not all of them
+        self.num_args - self.ind
     }
 }
